@@ -20,6 +20,7 @@ import AdaptixModel.Morph.Scalars
 import AdaptixProofs.Lemmas.MiniPy
 import AdaptixProofs.Lemmas.Catalogue
 import AdaptixProofs.Lemmas.MorphNoEscape
+import AdaptixProofs.Lemmas.MorphTerminates
 
 namespace Adaptix.Morph.C04
 open Adaptix.Py Adaptix.MiniPy Adaptix.Morph Adaptix.Generated.Scalars
@@ -144,6 +145,58 @@ theorem builtin_load_no_escape (oracle : SiteOracle) (hcat : WithinCatalogue ora
   · exact hk.2
   · exact hk.1
 
+/-! ### the outcome is a value or a LoadError — not merely "not another exception"
+
+  `load W cfg 0 T d = .diverge` (out of fuel), and `diverge` is not an escape: read alone,
+  `load_no_escape` is trivially true at fuel 0 and at every fuel that is too small.  The
+  complement: the fuel can always be chosen (`load_terminates`, Lemmas/MorphTerminates.lean, for
+  every class table, recursive ones included), and from that fuel on the loader *returns a value
+  or raises a LoadError* and the answer no longer depends on the fuel. -/
+
+/-- **`load_settles`.** Under the hypotheses of `load_no_escape` and leaves that answer, there is a
+    fuel `N` such that for every larger fuel the loader returns or raises a LoadError (tree) —
+    the same outcome for all of them. -/
+theorem load_settles (W : World) (sh known : String → Bool) (L : LeafSafe W sh known)
+    (hA : LeavesAnswer W) (hW : W.closed sh known) (cfg : Cfg) (T : Ty) (d : Val)
+    (hT : Ty.ok W sh known T = true) :
+    ∃ N, ∀ m, N ≤ m → load W cfg m T d = load W cfg N T d ∧
+      ((∃ v, load W cfg m T d = .ok v) ∨ (∃ e, load W cfg m T d = .err e)) := by
+  obtain ⟨N, hN⟩ := load_terminates W hA cfg T d
+  refine ⟨N, fun m hm => ⟨modes_load_mono_le hm (hN N (Nat.le_refl _)), ?_⟩⟩
+  have hne := load_no_escape W sh known L hW cfg m T d hT
+  have hnd := hN m hm
+  cases hr : load W cfg m T d with
+  | ok v => exact .inl ⟨v, rfl⟩
+  | err e => exact .inr ⟨e, rfl⟩
+  | escape x => rw [hr] at hne; cases hne
+  | diverge => exact absurd hr hnd
+
+theorem builtinWorld_answers (oracle : SiteOracle) (classes : String → Option (List Field))
+    (sd : String → Val → Outcome Val) : LeavesAnswer (builtinWorld oracle classes sd) :=
+  fun s name d => scalarLoadGen_answers oracle s name d
+
+/-- **C04 for the builtin recipe, total form**: for every holdable type, datum and mode the loader
+    built from the translated leaves ends — with enough fuel, and then whatever the fuel — in a
+    value or a LoadError. -/
+theorem builtin_load_settles (oracle : SiteOracle) (hcat : WithinCatalogue oracle)
+    (classes : String → Option (List Field)) (sd : String → Val → Outcome Val) (sh : String → Bool)
+    (hh : ∀ s name d v, sh name = true → scalarLoadGen oracle s name d = .ok v → v.hashable = true)
+    (hW : (builtinWorld oracle classes sd).closed sh knownScalar)
+    (cfg : Cfg) (T : Ty) (d : Val)
+    (hT : Ty.ok (builtinWorld oracle classes sd) sh knownScalar T = true) :
+    ∃ N, ∀ m, N ≤ m →
+      (∃ v, load (builtinWorld oracle classes sd) cfg m T d = .ok v) ∨
+      (∃ e, load (builtinWorld oracle classes sd) cfg m T d = .err e) := by
+  obtain ⟨N, hN⟩ := load_terminates _ (builtinWorld_answers oracle classes sd) cfg T d
+  refine ⟨N, fun m hm => ?_⟩
+  have hne := builtin_load_no_escape oracle hcat classes sd sh hh hW cfg m T d hT
+  have hnd := hN m hm
+  cases hr : load (builtinWorld oracle classes sd) cfg m T d with
+  | ok v => exact .inl ⟨v, rfl⟩
+  | err e => exact .inr ⟨e, rfl⟩
+  | escape x => rw [hr] at hne; cases hne
+  | diverge => exact absurd hr hnd
+
 /-- user code is the only other source: a leaf that escapes makes DISABLE/FIRST propagate the raw
     exception; this is what `Outcome.escape` of a world with an escaping leaf models.  Shown here
     only as the contrapositive reading of `load_no_escape`: an escape of `load` implies an
@@ -182,5 +235,129 @@ example : closures.length ≥ 40 ∧ tagFacts.length ≥ 30 := by decide +kernel
     so the theorem says something: e.g. the strict int loader under that oracle does not escape -/
 example (d : Val) : (scalarLoadGen witnessOracle true "int" d).isEscape = false :=
   translated_leaf_no_escape witnessOracle witness_within true "int" d (by decide +kernel)
+
+/-! ### all hypotheses of the builtin theorems hold together (non-degenerate instance)
+
+  `witnessOracle` (within the catalogue, `witness_within`), a RECURSIVE two-class table over the
+  translated scalars, a hash-safety predicate that is not constantly false (`None` loads to `None`
+  under every oracle: `none_hashable`), set elements and dict keys in the types. -/
+
+theorem clos_none (s : Bool) : ∃ cat, closureOf "none" s = some (prog_none_strict, cat) := by
+  cases s
+  · exact ⟨cat_none_lax, by rfl⟩
+  · exact ⟨cat_none_strict, by rfl⟩
+
+/-- the `None` loader returns `None` or raises, under EVERY oracle: `hh` for `sh = (· == "none")` -/
+theorem none_hashable (oracle : SiteOracle) (s : Bool) (name : String) (d v : Val)
+    (hn : (name == "none") = true) (h : scalarLoadGen oracle s name d = .ok v) : v.hashable = true := by
+  have : name = "none" := by simpa using hn
+  subst this
+  obtain ⟨cat, hc⟩ := clos_none s
+  unfold scalarLoadGen at h
+  rw [hc] at h
+  simp only [prog_none_strict, runClosure, evalBlock, evalStmt, evalTest, closureEnv] at h
+  cases hi : (factsOf d).isNone <;> simp [hi, resToOutcome] at h
+  · split at h <;> cases h
+  · subst h; rfl
+
+/-- `class Node: val: int; next: Optional[Node] = None`
+    `class Box: tags: Set[Optional[Literal["a","b"]]]; by: Dict[Tuple[Literal[1,2]], Node]` -/
+def wClasses : String → Option (List Field) := fun cls =>
+  if cls = "Node" then some [⟨"val", .scalar "int", true, .none⟩,
+                             ⟨"next", .union [.scalar "none", .model "Node"] ["NoneType", "Node"], false, .none⟩]
+  else if cls = "Box" then
+    some [⟨"tags", .iter .set false (.union [.scalar "none", .literal [.str "a", .str "b"]] ["NoneType", "str"]),
+            true, .none⟩,
+          ⟨"by", .dict (.tuple [.literal [.int 1, .int 2]]) (.model "Node"), true, .none⟩]
+  else none
+
+def wWorld : World := builtinWorld witnessOracle wClasses (fun _ d => .ok d)
+
+theorem known_int : knownScalar "int" = true := by decide +kernel
+theorem known_none : knownScalar "none" = true := by decide +kernel
+
+theorem wWorld_closed : wWorld.closed (· == "none") knownScalar := by
+  intro c fs h f hf
+  simp only [wWorld, builtinWorld, wClasses] at h
+  split at h
+  · cases h; simp at hf
+    rcases hf with rfl | rfl
+    · simp [Ty.ok, known_int]
+    · simp [Ty.ok, Ty.okAll, known_none, wWorld, builtinWorld, wClasses]
+  · split at h
+    · cases h; simp at hf
+      rcases hf with rfl | rfl
+      · simp [Ty.ok, Ty.okAll, Ty.hashOk, Ty.hashOkAll, isPlainVal, known_none]
+      · simp [Ty.ok, Ty.okAll, Ty.hashOk, Ty.hashOkAll, isPlainVal, wWorld, builtinWorld, wClasses]
+    · cases h
+
+/-- `builtin_load_no_escape` applied with every hypothesis discharged: any datum, mode, fuel -/
+example (cfg : Cfg) (n : Nat) (d : Val) : (load wWorld cfg n (.model "Box") d).isEscape = false :=
+  builtin_load_no_escape witnessOracle witness_within wClasses _ (· == "none")
+    (none_hashable witnessOracle) wWorld_closed cfg n (.model "Box") d
+    (by simp [Ty.ok, builtinWorld, wClasses])
+
+/-- … and `builtin_load_settles`: with enough fuel a value or a LoadError, for the recursive table -/
+example (cfg : Cfg) (d : Val) : ∃ N, ∀ m, N ≤ m →
+    (∃ v, load wWorld cfg m (.model "Box") d = .ok v) ∨ (∃ e, load wWorld cfg m (.model "Box") d = .err e) :=
+  builtin_load_settles witnessOracle witness_within wClasses _ (· == "none")
+    (none_hashable witnessOracle) wWorld_closed cfg (.model "Box") d
+    (by simp [Ty.ok, builtinWorld, wClasses])
+
+/-- **The hash-safety side condition of `Ty.ok` cannot be dropped** (known finding
+    `escape:TypeError:set-of-any-unhashable-element`): `Set[Any]` is a type Python can hold values
+    of, yet `Ty.ok` refuses it (`Any` is not hash-safe), and rightly so for the code as it is —
+    in every world, every debug_trail and coercion mode `load([[1]], Set[Any])` ends in the
+    `TypeError` of the `set` constructor (an `ExceptionGroup`-free escape: the error is raised
+    after the element loop).  The unconditional reading of C04 — "every builtin type" — is
+    therefore false; `load_no_escape` is the statement for the types `Ty.ok` admits. -/
+theorem set_of_any_escapes (W : World) (cfg : Cfg) :
+    load W cfg 2 (.iter .set false .any) (.list [.list [.int 1]]) = .escape "TypeError" := by
+  obtain ⟨t, s⟩ := cfg
+  cases t <;> cases s <;> rfl
+
+example (W : World) (sh known : String → Bool) : Ty.ok W sh known (.iter .set false .any) = false := by
+  simp [Ty.ok, Ty.hashOk]
+
+/-! witness for `escape_only_from_leaves`: a world with an escaping leaf (user code raising
+    `ZeroDivisionError`); the premise `hesc` holds and the conclusion names that leaf -/
+def Wbad : World :=
+  { classes := fun _ => none
+    scalarLoad := fun _ name d => if name = "bad" then .escape "ZeroDivisionError" else .ok d
+    scalarDump := fun _ d => .ok d }
+
+example : load Wbad ⟨.all, true⟩ 3 (.iter .list true (.scalar "bad")) (.list [.int 1, .int 2])
+    = .escape "ExceptionGroup" := by rfl
+
+example : ∃ s name x, (fun _ => true) name = true ∧ (Wbad.scalarLoad s name x).isEscape = true :=
+  escape_only_from_leaves Wbad (fun _ => false) (fun _ => true) (fun _ _ h => by cases h)
+    (fun _ _ _ _ h => by cases h) ⟨.all, true⟩ 3 (.iter .list true (.scalar "bad")) (.list [.int 1, .int 2])
+    rfl rfl
+
+/-- witness for `load_no_escape` / `load_settles` with an abstract (non-translated) world: leaves
+    that reject with a LoadError, one recursive class -/
+def Wok : World :=
+  { classes := fun cls =>
+      if cls = "T" then some [⟨"kids", .iter .list true (.model "T"), true, .none⟩,
+                              ⟨"tag", .scalar "s", false, .str ""⟩] else none
+    scalarLoad := fun _ _ d => match d with | .str _ => .ok d | _ => .err (LErr.leaf "TypeLoadError" d)
+    scalarDump := fun _ d => .ok d }
+
+theorem Wok_leafSafe : LeafSafe Wok (fun _ => true) (fun _ => true) :=
+  ⟨fun _ _ d _ => by cases d <;> rfl, fun _ _ d v _ h => by
+    cases d <;> simp [Wok] at h
+    subst h; rfl⟩
+
+theorem Wok_closed : Wok.closed (fun _ => true) (fun _ => true) := by
+  intro c fs h f hf
+  simp only [Wok] at h
+  split at h
+  · cases h; simp at hf; rcases hf with rfl | rfl <;> simp [Ty.ok, Wok]
+  · cases h
+
+example (cfg : Cfg) (d : Val) : ∃ N, ∀ m, N ≤ m → load Wok cfg m (.model "T") d = load Wok cfg N (.model "T") d ∧
+    ((∃ v, load Wok cfg m (.model "T") d = .ok v) ∨ (∃ e, load Wok cfg m (.model "T") d = .err e)) :=
+  load_settles Wok _ _ Wok_leafSafe (fun _ _ d => by cases d <;> simp [Wok]) Wok_closed cfg (.model "T") d
+    (by simp [Ty.ok, Wok])
 
 end Adaptix.Morph.C04
